@@ -29,6 +29,7 @@ def sessions_cases(ctx, n_cases, per=4):
             collect = rng.choice([0, 1, 1])
             traces = sorted([r, t] for r in ranks for t in TYPES if rng.random() < 0.3)
             seq.append({"kid": kidx, "kernel": k, "collect": collect, "traces": traces if collect else [], "ncache": rng.choice([0, 0, 2, 3]) if collect else 0,
+                        "dirty": rng.choice([0, 0, 0, 1, 2]),
                         "abort": (rng.randint(1, 2) if (collect and rng.random() < 0.12) else 0)})
         # make sure every kernel of the case is seen both off and on, and repeated with the same traces
         base = seq[0]
